@@ -645,3 +645,129 @@ Theorem C07_bin_resave_fixed_point_uncompressed_sample :
          encode_file BinFileFacts.db0 BinFileFacts.ep0 None out2 (children_of out2 0) = Ok b2.
 Proof. exact bin_resave_fixed_point_uncompressed_sample. Qed.
 
+(* ---- round 4 (Proofs/ResaveFixedPointKnown.v): the XML re-save fixed point for database-KNOWN properties, through XmlKnownProps: save(load(save d)) =
+   save(normk_dom d) (keys filed under their canonical name, values in norm_known form, legacy values migrated, dangling Refs nulled) for any per-value
+   codec, both unknown-property pairings, alias and legacy spellings; the fixed point after it under fix_dom (the returned canonical key resolves to
+   itself again and the value is a fixed point of the normalisation) — shown NECESSARY by a database in which a subclass shadows a canonical name
+   (fix_dom_needed_refuted); on the bundled database the key part holds for all 22 588 (class, key) pairs (bundled_self_ok) outside the two recorded
+   exceptions; two canonical properties sharing a serialized name on one instance break the first equation (resave_known_clash_refuted: the
+   recorded canonical-name-changes class seen from the re-save side). *)
+From RbxVerif Require Import XmlKnownProps ResaveFixedPointKnown.
+Theorem C07_xml_resave_known :
+  forall (e : xenv) (vc : vcodec (xe_o e)) (keep : bool) (d : cdom) (roots : list N) 
+         (evs : list wevent) (revs : list revent),
+       input_ok d roots ->
+       hash_ok e ->
+       known_dom e vc keep d roots ->
+       vc_plain vc ->
+       xml_encode e (ebeh_of keep) d roots = Ok evs ->
+       channel evs = Ok revs ->
+       exists d1 : cdom,
+         xml_decode e (dbeh_of keep) revs = Ok d1 /\
+         forest_rel d roots d1 /\
+         Forall2 (known_back e vc keep d (written d roots)) (written d roots) d1 /\
+         ordered (N.of_nat (Datatypes.length d1)) d1 /\
+         xml_encode e (ebeh_of keep) d1 (children_of d1 0) =
+         xml_encode e (ebeh_of keep) (normk_dom e vc keep (written d roots) d) roots.
+Proof. exact xml_resave_known. Qed.
+
+Theorem C07_xml_resave_known_fixed_point :
+  forall (e : xenv) (vc : vcodec (xe_o e)) (keep : bool) (d : cdom) (roots : list N) 
+         (evs : list wevent) (revs : list revent),
+       input_ok d roots ->
+       hash_ok e ->
+       known_dom e vc keep d roots ->
+       vc_plain vc ->
+       fix_dom e vc keep d roots ->
+       xml_encode e (ebeh_of keep) d roots = Ok evs ->
+       channel evs = Ok revs ->
+       exists d1 : cdom,
+         xml_decode e (dbeh_of keep) revs = Ok d1 /\
+         xml_encode e (ebeh_of keep) d1 (children_of d1 0) =
+         xml_encode e (ebeh_of keep) (normk_dom e vc keep (written d roots) d) roots /\
+         (forall (evs2 : list wevent) (revs2 : list revent),
+          xml_encode e (ebeh_of keep) d1 (children_of d1 0) = Ok evs2 ->
+          channel evs2 = Ok revs2 ->
+          exists d2 : cdom,
+            xml_decode e (dbeh_of keep) revs2 = Ok d2 /\
+            xml_encode e (ebeh_of keep) d2 (children_of d2 0) = Ok evs2).
+Proof. exact xml_resave_known_fixed_point. Qed.
+
+Theorem C07_xml_resave_known_fixed_point_bundled :
+  forall (e : xenv) (vc : vcodec (xe_o e)) (keep : bool) (d : cdom) (roots : list N) 
+         (evs : list wevent) (revs : list revent),
+       xe_db e = Database.database ->
+       input_ok d roots ->
+       hash_ok e ->
+       db_dom e vc keep bundled_exceptions d roots ->
+       vc_plain vc ->
+       val_dom e vc keep d roots ->
+       xml_encode e (ebeh_of keep) d roots = Ok evs ->
+       channel evs = Ok revs ->
+       exists d1 : cdom,
+         xml_decode e (dbeh_of keep) revs = Ok d1 /\
+         xml_encode e (ebeh_of keep) d1 (children_of d1 0) =
+         xml_encode e (ebeh_of keep) (normk_dom e vc keep (written d roots) d) roots /\
+         (forall (evs2 : list wevent) (revs2 : list revent),
+          xml_encode e (ebeh_of keep) d1 (children_of d1 0) = Ok evs2 ->
+          channel evs2 = Ok revs2 ->
+          exists d2 : cdom,
+            xml_decode e (dbeh_of keep) revs2 = Ok d2 /\
+            xml_encode e (ebeh_of keep) d2 (children_of d2 0) = Ok evs2).
+Proof. exact xml_resave_known_fixed_point_bundled. Qed.
+
+Theorem C07_bundled_self_ok :
+  db_self_ok Database.database = true.
+Proof. exact bundled_self_ok. Qed.
+
+Theorem C07_fix_dom_needed_refuted :
+  key_ok_b db_r "Sub" "a" = true /\
+       key_ok_b db_r "Sub" "A" = false /\
+       self_b db_r "Sub" "a" = false /\
+       input_ok d_r [1] /\
+       hash_ok e_r /\
+       known_dom e_r vc_r false d_r [1] /\
+       vc_plain vc_r /\
+       ~ fix_dom e_r vc_r false d_r [1] /\
+       thru e_r EIgnoreUnknown DIgnoreUnknown d_r [1] = Ok r_d1 /\
+       thru e_r EIgnoreUnknown DIgnoreUnknown r_d1 (children_of r_d1 0) = Ok r_d2 /\
+       xml_encode e_r EIgnoreUnknown r_d2 (children_of r_d2 0) <>
+       xml_encode e_r EIgnoreUnknown r_d1 (children_of r_d1 0).
+Proof. exact fix_dom_needed_refuted. Qed.
+
+Theorem C07_resave_known_clash_refuted :
+  key_ok_b Database.database "Sound" "MaxDistance" = false /\
+       one_spelling_b e_b false (B "Sound")
+         (ikeys
+            {|
+              i_ref := 1;
+              i_parent := 0;
+              i_class := B "Sound";
+              i_name := B "s";
+              i_props :=
+                [(B "MaxDistance", VFloat32 F32_ONE);
+                 (B "RollOffMaxDistance", VFloat32 XmlCompound2.F32_HALF)]
+            |}) = false /\
+       normk_dom e_b vc_b false (written d_s [1]) d_s =
+       [{|
+          i_ref := 1;
+          i_parent := 0;
+          i_class := B "Sound";
+          i_name := B "s";
+          i_props :=
+            [(B "RollOffMaxDistance", VFloat32 F32_ONE);
+             (B "RollOffMaxDistance", VFloat32 XmlCompound2.F32_HALF)]
+        |}] /\
+       (let d1 :=
+          [{|
+             i_ref := 1;
+             i_parent := 0;
+             i_class := B "Sound";
+             i_name := B "s";
+             i_props := [(B "RollOffMaxDistance", VFloat32 XmlCompound2.F32_HALF)]
+           |}] in
+        thru e_b EIgnoreUnknown DIgnoreUnknown d_s [1] = Ok d1 /\
+        xml_encode e_b EIgnoreUnknown d1 (children_of d1 0) <>
+        xml_encode e_b EIgnoreUnknown (normk_dom e_b vc_b false (written d_s [1]) d_s) [1]).
+Proof. exact resave_known_clash_refuted. Qed.
+
